@@ -573,6 +573,36 @@ func c19Multi(c *Ctx) {
 		}
 		c.Check(ok && n > 0, "C19.1", scheme+".Combine: a signer is appended only if not yet contained", p.FuncPos(fn),
 			"every append to the combined Multi is under !combined.Contains(sig.Signer())", "append not gated by !Contains(signer)")
+		// C19.8 the combined list owns its storage: the slice that is appended to starts as a fresh allocation (make, nil,
+		// a literal), never as one of the inputs -- append on an input with spare capacity writes into the array that an
+		// earlier result built from the same input still refers to (its signer list changes under its owner)
+		{
+			closure := helperClosure(p, fn, 2)
+			var bad []string
+			na := 0
+			for _, hf := range closure {
+				if funcPkgPath(hf) != funcPkgPath(fn) {
+					continue
+				}
+				eachInstr(hf, func(in ssa.Instruction) {
+					call, isCall := in.(*ssa.Call)
+					if !isCall {
+						return
+					}
+					b, isB := call.Call.Value.(*ssa.Builtin)
+					if !isB || b.Name() != "append" || !strings.Contains(call.Type().String(), "Multi[") {
+						return
+					}
+					na++
+					if why := notFreshSlice(call.Call.Args[0], hf, fn, closure, map[ssa.Value]bool{}, 0); why != "" {
+						bad = append(bad, p.InstrPos(in)+": "+why)
+					}
+				})
+			}
+			c.Check(len(bad) == 0 && na > 0, "C19.8", scheme+".Combine: the combined signer list is built in storage of its own", p.FuncPos(fn),
+				"every append that builds the result extends a slice rooted in a fresh allocation (make / nil / literal)",
+				"the result is built by appending to a slice that is not Combine's own: "+join(bad)+" (two results derived from the same input share one backing array; the later append rewrites the earlier result's signers)")
+		}
 	}
 	// (b) wire decoding builds a Multi unchecked; the verifiers re-establish distinctness before Len() is trusted
 	for _, scheme := range []string{"ECDSA", "EDDSA"} {
@@ -1149,4 +1179,102 @@ func c19ChangedByteGate(fl *Flow, st *ssa.Store) bool {
 		}
 	}
 	return false
+}
+
+// notFreshSlice reports why the slice v (an operand that is appended to, in function cur) may share its backing array with a
+// value that exists outside the function `top`; "" when every root is a fresh allocation. Parameters of private helpers are
+// followed to the helpers' call sites inside the closure.
+func notFreshSlice(v ssa.Value, cur, top *ssa.Function, closure []*ssa.Function, seen map[ssa.Value]bool, depth int) string {
+	if seen[v] {
+		return ""
+	}
+	seen[v] = true
+	if depth > 12 {
+		return "slice origin too deep to follow"
+	}
+	switch x := v.(type) {
+	case *ssa.MakeSlice:
+		return ""
+	case *ssa.Const:
+		if x.IsNil() {
+			return ""
+		}
+		return "constant"
+	case *ssa.Call:
+		if b, ok := x.Call.Value.(*ssa.Builtin); ok && b.Name() == "append" {
+			return notFreshSlice(x.Call.Args[0], cur, top, closure, seen, depth+1)
+		}
+		if callee := x.Call.StaticCallee(); callee != nil && callee.Name() == "Clone" && callee.Pkg != nil && callee.Pkg.Pkg.Path() == "slices" {
+			return ""
+		}
+		return "result of a call (" + x.Call.Value.Name() + ")"
+	case *ssa.Phi:
+		for _, e := range x.Edges {
+			if why := notFreshSlice(e, cur, top, closure, seen, depth+1); why != "" {
+				return why
+			}
+		}
+		return ""
+	case *ssa.ChangeType:
+		return notFreshSlice(x.X, cur, top, closure, seen, depth+1)
+	case *ssa.Convert:
+		return notFreshSlice(x.X, cur, top, closure, seen, depth+1)
+	case *ssa.Slice:
+		// s[:0] / s[i:j] of a slice keeps the array; of a fresh local array (a literal) it is fresh
+		if a, ok := x.X.(*ssa.Alloc); ok {
+			_ = a
+			return ""
+		}
+		return notFreshSlice(x.X, cur, top, closure, seen, depth+1)
+	case *ssa.UnOp:
+		if a, ok := x.X.(*ssa.Alloc); ok && x.Op == token.MUL {
+			// an address-taken local: every value stored into it
+			for _, r := range *a.Referrers() {
+				if st, ok := r.(*ssa.Store); ok && st.Addr == a {
+					if why := notFreshSlice(st.Val, cur, top, closure, seen, depth+1); why != "" {
+						return why
+					}
+				}
+			}
+			return ""
+		}
+		return "loaded from " + x.X.String()
+	case *ssa.Parameter:
+		if cur == top {
+			return "the parameter " + x.Name()
+		}
+		idx := -1
+		for i, pp := range cur.Params {
+			if pp == x {
+				idx = i
+			}
+		}
+		found := false
+		for _, hf := range closure {
+			var why string
+			eachInstr(hf, func(in ssa.Instruction) {
+				call, ok := in.(*ssa.Call)
+				if !ok || call.Call.StaticCallee() != cur || idx < 0 || idx >= len(call.Call.Args) || why != "" {
+					return
+				}
+				found = true
+				why = notFreshSlice(call.Call.Args[idx], hf, top, closure, seen, depth+1)
+			})
+			if why != "" {
+				return why
+			}
+		}
+		if !found {
+			return "the parameter " + x.Name() + " of " + cur.Name()
+		}
+		return ""
+	case *ssa.TypeAssert:
+		return "one of the input signatures (" + x.X.Name() + ".(" + x.AssertedType.String() + "))"
+	case *ssa.Extract:
+		if ta, ok := x.Tuple.(*ssa.TypeAssert); ok {
+			return "one of the input signatures (" + ta.X.Name() + ".(…))"
+		}
+		return "a component of " + x.Tuple.Name()
+	}
+	return v.String()
 }
